@@ -26,6 +26,19 @@ def whole(o):
     return d
 
 
+def wrap_literal(src):
+    """Break the line after the second comma that follows the first map / set literal's opening brace."""
+    i = src.find('{"')
+    if i < 0:
+        return src
+    j = src.find(', "', i)
+    k = src.find(', "', j + 1) if j >= 0 else -1
+    at = k if k >= 0 else j
+    if at < 0:
+        return src
+    return src[:at] + ',\n "' + src[at + 3:]
+
+
 def run(cx):
     cx.level = "model_checking"
     lang = cx.go_build("lang")
@@ -40,6 +53,16 @@ def run(cx):
     outp = cx.path("maplits.cases.ndjson")
     cx.run([lang, "render", "-in", inp, "-out", outp])
     batches.append(("maplits", outp))
+    # the same programs with their literals WRAPPED over lines (a line break after a comma, the continuation line
+    # indented less than the first entry): the order of entries is the source order, however the source is laid out
+    wrapped = []
+    for c in vlib.read_ndjson(outp):
+        w = wrap_literal(c["src"])
+        if w != c["src"]:
+            wrapped.append(dict(c, src=w))
+    wp = cx.path("maplits_wrapped.cases.ndjson")
+    vlib.write_ndjson(wp, wrapped)
+    batches.append(("maplits-wrapped", wp))
     # V: random programs, literal-heavy
     rp = cx.path("rand.cases.ndjson")
     cx.run([lang, "gen", "-seed", str(cx.seed * 1000 + 5), "-n", str(n_rand), "-depth", "3", "-budget", "70",
